@@ -12,6 +12,7 @@ package main
 
 import (
 	"fmt"
+	"os"
 	"strconv"
 	"strings"
 	"time"
@@ -24,7 +25,12 @@ import (
 )
 
 // source regenerates the feature list of case `no` (the same in the parent and in every child).
-func source(seed uint64, no int, thorough bool) ([]ingest.Feature, []string, error) {
+//
+// One case in three (and the second corpus case) is a PBF-file case: the input is written with osm.Writer in
+// blocks of 1-4 elements and both worlds are built from the file (ingest.PBFFilesOSMSource, whose reader
+// decodes blobs on g goroutines, so that ways, relations and nodes arrive in varying order). `pbf` is then the
+// file name (to be removed by the caller) and the features are those of the file read back.
+func source(seed uint64, no int, thorough bool) (fs []ingest.Feature, shape []string, pbf string, err error) {
 	var in *wd.Input
 	r := wd.CaseRand(seed, no)
 	if no >= 1000000 {
@@ -32,11 +38,24 @@ func source(seed uint64, no int, thorough bool) ([]ingest.Feature, []string, err
 	} else {
 		in = wd.Generate(r, thorough && r.Chance(1, 8))
 	}
-	fs, err := in.Features()
-	if err != nil {
-		return nil, nil, err
+	shape = append([]string(nil), in.Shape...)
+	if no == 1000001 || (no < 1000000 && r.Chance(1, 3)) {
+		pbf, err = wd.WritePBF(in, 1+r.Intn(4))
+		if err != nil {
+			return nil, nil, pbf, err
+		}
+		back, err := wd.ReadBackPBF(pbf)
+		if err != nil {
+			return nil, nil, pbf, err
+		}
+		fs, err = back.Features()
+		return fs, append(shape, "source:pbf-file"), pbf, err
 	}
-	shape := append([]string(nil), in.Shape...)
+	shape = append(shape, "source:memory")
+	fs, err = in.Features()
+	if err != nil {
+		return nil, nil, "", err
+	}
 	// features an OSM source cannot produce: an area over an open (valid) path, an area over a path
 	// that does not exist
 	if no < 1000000 && r.Chance(1, 3) {
@@ -84,7 +103,7 @@ func source(seed uint64, no int, thorough bool) ([]ingest.Feature, []string, err
 		fs = out
 		shape = append(shape, "order:shuffled")
 	}
-	return fs, shape, nil
+	return fs, shape, "", nil
 }
 
 func corpus() *wd.Input {
@@ -109,6 +128,9 @@ func corpus() *wd.Input {
 
 // goroutine counts of the compact builds of a case besides 1 (the in-memory world is built with all of 2..16)
 func compactGs(seed uint64, no int, thorough bool) []int {
+	if no == 1000001 {
+		return []int{2, 3, 5, 8, 16}
+	}
 	if no >= 1000000 {
 		gs := make([]int, 15)
 		for i := range gs {
@@ -148,7 +170,10 @@ func parseArg(arg string) (seed uint64, thorough bool, no int, rest []string) {
 func basicChild(arg string) string {
 	seed, thorough, no, _ := parseArg(arg)
 	var t wd.Transcript
-	fs, shape, err := source(seed, no, thorough)
+	fs, shape, pbf, err := source(seed, no, thorough)
+	if pbf != "" {
+		defer os.Remove(pbf)
+	}
 	if err != nil {
 		t.Op("build", "features-err")
 		return t.String()
@@ -166,7 +191,13 @@ func basicChild(arg string) string {
 		types[wd.ID(f.FeatureID())[0]] = true
 	}
 	for g := 1; g <= 16; g++ {
-		w, err := wd.BuildBasicFromFeatures(fs, g)
+		var w b6.World
+		var err error
+		if pbf != "" {
+			w, err = wd.BuildBasicFromPBF(pbf, g)
+		} else {
+			w, err = wd.BuildBasicFromFeatures(fs, g)
+		}
 		if err != nil {
 			t.Op(fmt.Sprintf("par basic g=%d", g), "err")
 			continue
@@ -192,11 +223,19 @@ func compactChild(arg string) string {
 	seed, thorough, no, rest := parseArg(arg)
 	g, _ := strconv.Atoi(rest[0])
 	var t wd.Transcript
-	fs, _, err := source(seed, no, thorough)
+	fs, _, pbf, err := source(seed, no, thorough)
+	if pbf != "" {
+		defer os.Remove(pbf)
+	}
 	if err != nil {
 		return t.String()
 	}
-	w, err := wd.BuildCompactFromFeatures(fs, g)
+	var w b6.World
+	if pbf != "" {
+		w, err = wd.BuildCompactFromPBF(pbf, g)
+	} else {
+		w, err = wd.BuildCompactFromFeatures(fs, g)
+	}
 	if err != nil {
 		t.Op(fmt.Sprintf("par compact g=%d", g), "err")
 		return t.String()
@@ -217,34 +256,39 @@ func main() {
 	hx.RegisterChild("c36basic", basicChild)
 	hx.RegisterChild("c36compact", compactChild)
 	const timeout = 300 * time.Second
-	blocks := &wd.Blocks{Size: 1, Workers: 5, Ahead: 10,
-		Run: func(seed uint64, tier string, first, count int) string {
-			no := first
-			arg := fmt.Sprintf("%d %s %d", seed, tier, no)
-			var sb strings.Builder
-			fmt.Fprintf(&sb, "CASE\t%d\n", no)
-			res := wd.Spawn("c36basic", arg, timeout, 8)
+	runCase := func(seed uint64, tier string, no int) string {
+		arg := fmt.Sprintf("%d %s %d", seed, tier, no)
+		var sb strings.Builder
+		res := wd.Spawn("c36basic", arg, timeout, 8)
+		if res == "crash" || res == "hang" {
+			fmt.Fprintf(&sb, "O\tpar basic g=all\t%s\n", res)
+		} else {
+			sb.WriteString(res)
+		}
+		for _, g := range append([]int{1}, compactGs(seed, no, tier == "thorough")...) {
+			res := wd.Spawn("c36compact", fmt.Sprintf("%s %d", arg, g), timeout, 8)
 			if res == "crash" || res == "hang" {
-				fmt.Fprintf(&sb, "O\tpar basic g=all\t%s\n", res)
+				fmt.Fprintf(&sb, "O\tpar compact g=%d\t%s\n", g, res)
 			} else {
 				sb.WriteString(res)
 			}
-			for _, g := range append([]int{1}, compactGs(seed, no, tier == "thorough")...) {
-				res := wd.Spawn("c36compact", fmt.Sprintf("%s %d", arg, g), timeout, 8)
-				if res == "crash" || res == "hang" {
-					fmt.Fprintf(&sb, "O\tpar compact g=%d\t%s\n", g, res)
-				} else {
-					sb.WriteString(res)
-				}
+		}
+		return sb.String()
+	}
+	blocks := &wd.Blocks{Size: 1, Workers: 5, Ahead: 10,
+		Run: func(seed uint64, tier string, first, count int) string {
+			out := fmt.Sprintf("CASE\t%d\n", first) + runCase(seed, tier, first)
+			if first == 1000000 { // the corpus has a second input: the same features from a PBF file
+				out += "O\treset\t-\n" + runCase(seed, tier, 1000001)
 			}
-			return sb.String()
+			return out
 		}}
 	run := func(c *hx.Ctx) {
 		wd.Relay(c, blocks.Get(c.Seed, c.Tier, c.CaseNo))
 	}
 	hx.Main(hx.Family{
 		Name:     "c36",
-		Rule:     "features of a generated OSM-shaped input (see c02) plus areas over open / absent paths, in source order, areas first or shuffled, read from an ingest.MemoryFeatureSource; in-memory world built with 1..16 cores, compact index with 1 and two sampled counts from 2..16 (thorough: 16 and four sampled; corpus: all of 2..16), each compact build in its own process; non-trivial = at least three feature types",
+		Rule:     "features of a generated OSM-shaped input (see c02) plus areas over open / absent paths, in source order, areas first or shuffled, read from an ingest.MemoryFeatureSource; one case in three instead written to a PBF file in blocks of 1-4 elements and read by ingest.PBFFilesOSMSource (parallel blob decoding); in-memory world built with 1..16 cores, compact index with 1 and two sampled counts from 2..16 (thorough: 16 and four sampled; corpus: all of 2..16), each compact build in its own process; non-trivial = at least three feature types",
 		Quick:    120,
 		Thorough: 400,
 		Corpus:   run,
